@@ -26,7 +26,7 @@ ASSUMPTIONS = ["reference = marshal.loads of the producing interpreter on the sa
 
 
 def bounds(tier):
-    return {"depth": 2 if tier == "quick" else 3, "deviations": 1 if tier == "quick" else 2, "format_versions": "0-2 (2.7), 0-4 (3.x)",
+    return {"depth": 2 if tier == "quick" else 3, "deviations": "1 (+ FLAG_REF on the same node as an alternative type code)" if tier == "quick" else 2, "format_versions": "0-2 (2.7), 0-4 (3.x)",
             "container_sizes": [0, 1, 2, 255, 256, 300]}
 
 
